@@ -72,28 +72,51 @@ def primitives(ctx, rule):
         body = ctx.body(key)
         if not ps:
             continue
-        ent = [e for p in ps for e in p.calls("HashMap::entry")]
+        # every access to the map (entry / insert / get_mut / get / remove / contains_key) is keyed by `var`
+        ent = [e for p in ps for e in p.events if ev_is(e, "HashMap::entry", "HashMap::insert", "HashMap::get_mut", "HashMap::get", "HashMap::remove", "HashMap::contains_key")]
         ok = bool(ent) and all(strip_refs(e.args[1]) == ("param", 2) for e in ent)
-        ctx.check(ok, rule, key, "keyed-by-var", "entry(var)", "%s does not address entries by its `var` argument" % key, fn_span(body))
+        ctx.check(ok, rule, key, "keyed-by-var", "entries accessed under `var` only", "%s does not address entries by its `var` argument" % key, fn_span(body))
     ps = ctx.paths(WRITERS[0])
     if ps:
         body = ctx.body(WRITERS[0])
         for i, p in enumerate(ret_paths(ps)):
             st = [e for e in p.events if e.kind == "store" and strip_refs(e.value) == ("param", 3)]
             ins = [e for e in p.events if e.kind == "call" and e.name.endswith("VacantEntry::insert") and strip_refs(e.args[1]) == ("param", 3)]
+            # HashMap::insert(var, val) replaces an existing value and inserts a missing one in one call
+            ins += [e for e in p.events if ev_is(e, "HashMap::insert") and strip_refs(e.args[1]) == ("param", 2) and strip_refs(e.args[2]) == ("param", 3)
+                    and mentions(e.args[0], lambda s_: s_[0] == "field" and s_[3] == "entries")]
             ctx.check(bool(st) or bool(ins), rule, WRITERS[0], "overwrite-%d" % i, "value replaced / inserted with `val`",
                       "insert_or_update has a path that neither overwrites nor inserts `val`", fn_span(body))
     ps = ctx.paths(WRITERS[1])
     if ps:
         body = ctx.body(WRITERS[1])
+        seen_arms = set()
         for i, p in enumerate(ret_paths(ps)):
             am = [e for e in p.events if e.kind == "call" and e.path.endswith("::and_modify")]
             oi = [e for e in p.events if e.kind == "call" and e.path.endswith("::or_insert")]
             ok = len(am) == 1 and len(oi) == 1 and strip_refs(oi[0].args[1]) == ("param", 3) and oi[0].args[0] == am[0].term
-            ctx.check(ok, rule, WRITERS[1], "modify-or-insert-%d" % i, "entry(var).and_modify(push val).or_insert(val)",
-                      "insert_or_push is not and_modify(..).or_insert(val) on the same entry", fn_span(body))
+            how = "entry(var).and_modify(push val).or_insert(val)"
+            if not am and not oi:
+                # the same two arms written with a lookup: get_mut(&var) found -> existing.push(&val); not found -> insert(var, val)
+                gm = [c for c in p.conds() if c.term[0] == "discr" and is_call(strip_refs(c.term[1]), "HashMap::get_mut") and strip_refs(call_args(strip_refs(c.term[1]))[1]) == ("param", 2)]
+                pu = [e for e in p.events if e.kind == "call" and e.path == "summary::SummaryValue::push"]
+                ins = [e for e in p.events if ev_is(e, "HashMap::insert")]
+                if gm:
+                    found = gm[-1].fact == ("eq", 1)
+                    g = strip_refs(gm[-1].term[1])
+                    if found:
+                        ok = len(pu) == 1 and not ins and mentions(pu[0].args[0], lambda s_: s_ == g) and strip_refs(pu[0].args[1]) == ("param", 3)
+                    else:
+                        ok = len(ins) == 1 and not pu and strip_refs(ins[0].args[1]) == ("param", 2) and strip_refs(ins[0].args[2]) == ("param", 3)
+                    seen_arms.add(found)
+                    how = "get_mut(&var): found -> existing.push(&val), absent -> insert(var, val)"
+            ctx.check(ok, rule, WRITERS[1], "modify-or-insert-%d" % i, how,
+                      "insert_or_push is not `append val to the existing value, or insert val when there is none`", fn_span(body))
+        if seen_arms:
+            ctx.check(seen_arms == {True, False}, rule, WRITERS[1], "both-arms", "found and absent arms both present",
+                      "insert_or_push lacks the %s arm" % ("absent" if True in seen_arms else "found"), fn_span(body), nontrivial=False)
         ck = "summary::Summary::insert_or_push::{closure#0}"
-        cps = ctx.paths(ck)
+        cps = ctx.paths(ck) if ctx.fx.fn(ck) is not None else None
         for i, p in enumerate(ret_paths(cps or [])):
             pu = [e for e in p.events if e.kind == "call" and e.path == "summary::SummaryValue::push"]
             ok = len(pu) == 1 and strip_refs(pu[0].args[0]) == ("param", 2)
